@@ -125,6 +125,19 @@ class _NpFacade(types.ModuleType):
         return getattr(np, name)
 
     @staticmethod
+    def linspace(start, stop, num=50, **kw):
+        if isinstance(start, R) or isinstance(stop, R):
+            if kw:
+                raise Unmodelled("np.linspace options on symbolic scalars")
+            a, b = R.lift(start), R.lift(stop)
+            num = int(num)
+            out = np.empty(num, dtype=object)
+            for i in range(num):
+                out[i] = a if num == 1 else a + (b - a) * R(core.Fraction(i, num - 1))
+            return out
+        return np.linspace(start, stop, num=num, **kw)
+
+    @staticmethod
     def isnan(x):
         if isinstance(x, R):
             return False
@@ -507,6 +520,12 @@ def install(choice_sets=False):
     import classy_blocks.optimize.cell as CE
     CE.np = _NpFacade()
     STUBS.append("optimize.cell: np.linalg.norm -> sqrt(sum of squares) model (same as scipy.linalg.norm)")
+
+    import classy_blocks.construct.flat.sketches.grid as GD
+    import classy_blocks.construct.curves.curve as CV
+    GD.np = _NpFacade()
+    CV.np = _NpFacade()
+    STUBS.append("sketches.grid / curves.curve: np.linspace on symbolic scalars -> a + (b-a)*i/(n-1)")
 
     import classy_blocks.items.wires.manager as MG
     MG.set = symset
